@@ -110,6 +110,15 @@ class ComplexAngularCentralGaussian(_ProbabilisticModel):
                 else:
                     raise
         eigenvals = eigenvals.real
+        # A covariance matrix without a positive eigenvalue (e.g. estimated
+        # from all-zero observations) has no directional information. Use the
+        # isotropic matrix instead of dividing by zero later on.
+        degenerate = np.amax(eigenvals, axis=-1, keepdims=True) <= 0
+        eigenvals = np.where(
+            degenerate,
+            1 / eigenvals.shape[-1] if covariance_norm == 'trace' else 1.,
+            eigenvals,
+        )
         if covariance_norm == 'eigenvalue':
             # The scale of the eigenvals does not matter.
             eigenvals = eigenvals / np.maximum(
